@@ -289,7 +289,7 @@ theorem rk23Start_reflect {σ : Type} (P : R23Params K n) (f : Rhs K n) (ob : Ob
     have ha := afterCb_reflect f ob obs0 ((({} : Meter K n).bump #[(x0, y0)] 1).cb x0 x0 y0 #[]) x0 x0 y0 none (f 0 x0 y0)
     rw [show rIp (none : Option (K → Vec K n)) = none from rfl] at ha
     rw [ha]
-    have hh : Num.abs h0 * -P.posneg = -(Num.abs h0 * P.posneg) := by ring
+    have hh : Num.fmin (Num.abs h0) P.hmax * -P.posneg = -(Num.fmin (Num.abs h0) P.hmax * P.posneg) := by ring
     cases afterCb f ob obs0 ((({} : Meter K n).bump #[(x0, y0)] 1).cb x0 x0 y0 #[]) x0 x0 y0 none (f 0 x0 y0) with
     | stop o yy => simp only [rAfter, rOut23, rResult, hh]
     | go o yy kk mm => simp only [rAfter, rOut23, rS23, hh]
